@@ -591,7 +591,12 @@ func init() {
 			envFull(r, P, [][3]int{{3, 2, 1}}, 193)
 			envFullV2(r, false, true, false, 1, st2)
 		}
-		r.Phase("first use in fresh processes", func() { firstUseScores(r, 3, 0); historyVariantsFor(r, 3, 0); firstUseScores(r, 2, 0); historyVariantsFor(r, 2, 0) })
+		r.Phase("first use in fresh processes", func() {
+			firstUseScores(r, 3, 0)
+			historyVariantsFor(r, 3, 0)
+			firstUseScores(r, 2, 0)
+			historyVariantsFor(r, 2, 0)
+		})
 		r.Phase("score and severity sequences", func() {
 			for lv := 0; lv < 3; lv++ {
 				scoreSequences(r, 3, lv)
@@ -613,7 +618,12 @@ func init() {
 		enumV3Temporal(r, P, st3, []int{1, 2}, []map[string]string{{}, {"CR": "X", "IR": "X", "AR": "X", "MAV": "X", "MAC": "X", "MPR": "X", "MUI": "X", "MS": "X", "MC": "X", "MI": "X", "MA": "X"}})
 		enumV2Temporal(r, P, st2, []int{1, 2}, []map[string]string{{}, {"CDP": "H", "TD": "N", "CR": "H", "IR": "H", "AR": "H"}, {"CDP": "ND", "TD": "ND", "CR": "ND", "IR": "ND", "AR": "ND"}})
 		envFullV2(r, false, false, true, 1, nil)
-		r.Phase("first use in fresh processes", func() { firstUseScores(r, 3, 1); historyVariantsFor(r, 3, 1); firstUseScores(r, 2, 1); historyVariantsFor(r, 2, 1) })
+		r.Phase("first use in fresh processes", func() {
+			firstUseScores(r, 3, 1)
+			historyVariantsFor(r, 3, 1)
+			firstUseScores(r, 2, 1)
+			historyVariantsFor(r, 2, 1)
+		})
 		r.Phase("score sequences", func() {
 			for _, lv := range []int{1, 2} {
 				scoreSequences(r, 3, lv)
